@@ -425,3 +425,31 @@ func replaceExpr(root ast.Node, old, new ast.Expr) bool {
 	})
 	return done
 }
+
+// frameReturnAliases: the locals of spliced-in helpers whose value is handed back into obj
+// (`obj := helper(…)` became a frame; the helper ends with `return x`): x stands for obj.
+func frameReturnAliases(info *types.Info, obj types.Object) []types.Object {
+	var out []types.Object
+	if obj == nil {
+		return nil
+	}
+	for _, fr := range inlineFrames {
+		for i, l := range fr.Lhs {
+			if objOfIdent(info, l) != obj {
+				continue
+			}
+			ast.Inspect(fr.Callee.Body, func(n ast.Node) bool {
+				if _, isLit := n.(*ast.FuncLit); isLit {
+					return false
+				}
+				if rs, ok := n.(*ast.ReturnStmt); ok && i < len(rs.Results) {
+					if o := objOfIdent(info, rs.Results[i]); o != nil {
+						out = append(out, o)
+					}
+				}
+				return true
+			})
+		}
+	}
+	return out
+}
